@@ -37,7 +37,7 @@ def check_column(facts, chk, rule='C03.column'):
             for bb, t in b.calls():
                 if (t.callee.name or '').endswith('index_mut') and 'Vec<u8>' in (t.callee.full or ''):
                     sites.append((b.name, show(ebb.operand(t.args[1])), t.span))
-        ok_b = len(sites) == 3 and all('idx(' in s[1] and 'other' in s[1] for s in sites)
+        ok_b = len(sites) == 3 and all(s[1] in ('idx(&*other)', 'idx(&*upvar:*other)', 'idx(&*upvar:other)', 'idx(other)') for s in sites)
         res.append(('base-index', ok_b, '%d base-vector writes, all at other.idx(): %s' % (len(sites), [s[1] for s in sites])))
         # vectors are created with n_samples zeros
         fe = []
